@@ -7,14 +7,14 @@ from gens import pipegen
 TRUSTED_BASE = [
     "Coq 8.16.1 kernel (coqc; coqchk in thorough); no native_compute",
     "extraction with ExtrOcamlBasic only; OCaml driver oracle/{conv,eng_pipe,oracle}.ml",
-    "Rust harness /verif/harness engine `pipe`: real BmpState (facade rotonda::verif::bmp::Session), real RibUnitRunner::process_update and Rib::match_prefix (rotonda::verif::rib), real bgp Processor::process_update (rotonda::verif::bgp); BMP/BGP bytes from rotonda::bgp::encode",
+    "Rust harness /verif/harness engine `pipe`: real BmpState (facade rotonda::verif::bmp::Session), real RibUnitRunner::process_update and Rib::match_prefix (rotonda::verif::rib), real bgp Processor::process_update (rotonda::verif::bgp); BMP/BGP bytes of the abstract ops from rotonda::bgp::encode; the UPDATE octets of the wire-level ops (RB/AB, used by C01) from C04's proved encoder (oracle c04enc) and malformed variants of its output",
     "emulated in the harness, not exercised: the accept loops' router / BGP-session id assignment and the post-loop cleanup of a lost BMP connection (covered by C14 and C07)",
     "modelled, not verified: src/units/bmp_tcp_in/state_machine/*, src/units/rib_unit/{rib.rs,unit.rs}, src/ingress.rs; rotonda-store is modelled as a finite map plus a withdrawn-id set; routecore parsing is not modelled (C04)",
 ]
 ASSUMPTIONS = [
-    "IPv4 unicast only on the byte level of this engine (the test encoder of the repository does not produce usable MP_REACH); other families are covered at RIB level and by C04",
+    "the abstract ops (R/A) are IPv4 unicast on the byte level (the test encoder of the repository does not produce usable MP_REACH); UPDATEs of all four families, End-of-RIB forms and malformed UPDATEs enter through the wire-level ops RB/AB (C01), interpreted in the model by C04's decoder in the implementation's mode (Pipe/PipeRaw.v); PDUs in the classes of C04's findings / tolerance are left to C04",
     "HashMap iteration order is arbitrary: id lists are compared as sorted sets",
-    "the attribute set of a route is identified by the first hop of its AS path",
+    "the attribute set of a route is identified by its octets: named by the number of the abstract op that produced exactly these octets, else by length and FNV-1a 32 of the octets",
 ]
 
 
